@@ -1085,6 +1085,10 @@ class HTTPResponse(BaseHTTPResponse):
 
         if self._connection:
             self._connection.close()
+            # The (now closed) connection still occupies a slot of its pool:
+            # give the slot back, otherwise a response that is only closed
+            # permanently shrinks a blocking pool.
+            self.release_conn()
 
         if not self.auto_close:
             io.IOBase.close(self)
